@@ -41,5 +41,12 @@ func init() {
 			Old: "\tfor _, resp := range resps {\n\t\terr := convertStatusCodeToError(resp.StatusCode)", New: "\tfor i := 0; i < len(resps); i++ {\n\t\tresp := resps[i]\n\t\terr := convertStatusCodeToError(resp.StatusCode)"},
 		Variant{Prop: "C13", Name: "benign-len-lt-1", File: se,
 			Old: "\tif len(resps) == 0 {\n\t\treturn nil, errEmptyResponse", New: "\tif len(resps) < 1 {\n\t\treturn nil, errEmptyResponse"},
+		// the status codes in a table (fourth seeding round): fine when a code outside the table is an error
+		Variant{Prop: "C13", Name: "seed-status-table-unknown-code-is-nil", File: "p2p/helpers.go", Expect: "C13.b",
+			Old: "func convertStatusCodeToError(code p2p_pb.StatusCode) error {\n\tswitch code {\n\tcase p2p_pb.StatusCode_OK:\n\t\treturn nil\n\tcase p2p_pb.StatusCode_NOT_FOUND:\n\t\treturn header.ErrNotFound\n\tdefault:\n\t\treturn fmt.Errorf(\"unknown status code %d\", code)\n\t}\n}", New: "var statusCodeErrors = map[p2p_pb.StatusCode]error{\n\tp2p_pb.StatusCode_OK:        nil,\n\tp2p_pb.StatusCode_NOT_FOUND: header.ErrNotFound,\n}\n\nfunc convertStatusCodeToError(code p2p_pb.StatusCode) error {\n\treturn statusCodeErrors[code]\n}"},
+		Variant{Prop: "C13", Name: "benign-status-table-with-ok-test", File: "p2p/helpers.go",
+			Old: "func convertStatusCodeToError(code p2p_pb.StatusCode) error {\n\tswitch code {\n\tcase p2p_pb.StatusCode_OK:\n\t\treturn nil\n\tcase p2p_pb.StatusCode_NOT_FOUND:\n\t\treturn header.ErrNotFound\n\tdefault:\n\t\treturn fmt.Errorf(\"unknown status code %d\", code)\n\t}\n}", New: "var statusCodeErrors = map[p2p_pb.StatusCode]error{\n\tp2p_pb.StatusCode_OK:        nil,\n\tp2p_pb.StatusCode_NOT_FOUND: header.ErrNotFound,\n}\n\nfunc convertStatusCodeToError(code p2p_pb.StatusCode) error {\n\terr, known := statusCodeErrors[code]\n\tif !known {\n\t\treturn fmt.Errorf(\"unknown status code %d\", code)\n\t}\n\treturn err\n}"},
+		Variant{Prop: "C13", Name: "status-table-second-nil-entry", File: "p2p/helpers.go", Expect: "C13.b",
+			Old: "func convertStatusCodeToError(code p2p_pb.StatusCode) error {\n\tswitch code {\n\tcase p2p_pb.StatusCode_OK:\n\t\treturn nil\n\tcase p2p_pb.StatusCode_NOT_FOUND:\n\t\treturn header.ErrNotFound\n\tdefault:\n\t\treturn fmt.Errorf(\"unknown status code %d\", code)\n\t}\n}", New: "var statusCodeErrors = map[p2p_pb.StatusCode]error{\n\tp2p_pb.StatusCode_OK:        nil,\n\tp2p_pb.StatusCode_NOT_FOUND: header.ErrNotFound,\n\tp2p_pb.StatusCode_INVALID:   nil,\n}\n\nfunc convertStatusCodeToError(code p2p_pb.StatusCode) error {\n\terr, known := statusCodeErrors[code]\n\tif !known {\n\t\treturn fmt.Errorf(\"unknown status code %d\", code)\n\t}\n\treturn err\n}"},
 	)
 }
